@@ -150,6 +150,9 @@ func (c *cacheRig) run(r Run) procResult {
 	switch kind {
 	case "missing":
 		path = c.e.noPath
+	case "noexec":
+		// the tool is found but cannot be started (for the specification: cmd.Run fails without output, as "missing")
+		path = []string{c.e.noExec, c.e.noInterp}[j%2]
 	case "fail":
 		p.FailAfter = j
 	case "sigfail":
@@ -211,6 +214,9 @@ func genHistory(r *rand.Rand) History {
 			}
 			return fmt.Sprintf("fsize:%d", r.Intn(13))
 		case 0:
+			if r.Intn(2) == 0 {
+				return fmt.Sprintf("noexec:%d", r.Intn(2))
+			}
 			return "missing"
 		case 1, 2:
 			if r.Intn(3) == 0 {
@@ -280,6 +286,8 @@ func runCache(e *env, replayCases []string) error {
 			hs = append(hs, History{Runs: []Run{{Variant: 0, Sched: fmt.Sprintf("overlap:%d:%d", jk[0], jk[1])}, {Variant: 0, Sched: "ok"}}})
 		}
 		hs = append(hs, History{Runs: []Run{{Variant: 0, Sched: "missing"}, {Variant: 0, Sched: "ok"}}})
+		hs = append(hs, History{Runs: []Run{{Variant: 0, Sched: "noexec:0"}, {Variant: 0, Sched: "ok"}}})
+		hs = append(hs, History{Runs: []Run{{Variant: 0, Sched: "noexec:1"}, {Variant: 0, Sched: "ok"}}})
 		hs = append(hs, History{Runs: []Run{{Variant: 0, Sched: "ok"}, {Variant: 0, Sched: "ok"}}})
 		hs = append(hs, History{Runs: []Run{{Variant: 0, Sched: "ok"}, {Variant: 1, Sched: "kill:3"}, {Variant: 1, Sched: "ok"}, {Variant: 0, Sched: "ok"}}})
 		hs = append(hs, History{Runs: []Run{{Variant: 0, Sched: "ok"}, {Variant: 0, Sched: "kill:2"}, {Variant: 0, Sched: "ok"}}})
@@ -294,7 +302,11 @@ func runCache(e *env, replayCases []string) error {
 		nontrivial := false
 		for _, r := range h.Runs {
 			// for the specification a tool that dies from a signal is a tool that failed after the same prefix
-			req += fmt.Sprintf(" %d %s", r.Variant, strings.Replace(strings.Replace(r.Sched, "sigfail:", "fail:", 1), "fsizeq:", "fsize:", 1))
+			sched := strings.Replace(strings.Replace(r.Sched, "sigfail:", "fail:", 1), "fsizeq:", "fsize:", 1)
+			if strings.HasPrefix(sched, "noexec:") {
+				sched = "missing" // a tool that cannot be started is a tool that is not there
+			}
+			req += fmt.Sprintf(" %d %s", r.Variant, sched)
 			kind, _ := parseSched(r.Sched)
 			e.tag("sched:" + kind)
 			if r.Sched != "ok" {
